@@ -237,7 +237,10 @@ def decide(prop, tier, seed, t0):
     known_lines = []
     notes = []
 
-    machinery_rows = [r for r in rows if "error" in r]
+    # glue failures: records the model could not decode, and records in which a classification / per-bound field written by
+    # synx contradicts the verbatim tokens it belongs to (coq/Tie.v) - the model then works on a misread input
+    glue_rows = [r for r in rows if r.get("fields_ok") is False]
+    machinery_rows = [r for r in rows if "error" in r] + glue_rows
     applicable = []
     failing = []
     tie_broken = []
@@ -449,7 +452,8 @@ def decide(prop, tier, seed, t0):
             r = (tie_broken or machinery_rows)[0]
             path = write_replay(prop, "correspondence", cases.get(r.get("cid")), r,
                                 {"correspondence": "alpha_%s(implementation) = alpha_%s(model)" % (prop, prop),
-                                 "disagreeing_cases": len(tie_broken), "undecodable_records": len(machinery_rows),
+                                 "disagreeing_cases": len(tie_broken), "undecodable_records": len(machinery_rows) - len(glue_rows),
+                                 "input_field_mismatches (coq/Tie.v)": len(glue_rows),
                                  "search": "no failing input found in the widened corpus"})
             violations.append((path, " no-failing-input-found"))
 
@@ -484,7 +488,8 @@ def decide(prop, tier, seed, t0):
             "rule": RULES.get(prop, "") + " | counted as non-trivial: a recorded invocation to which the property's predicate applies and whose real expansion it could evaluate; distinct by (variant, attribute tokens, input tokens)", "samples": samples or [{"note": "no applicable case in this corpus"}],
             "traces_validated_against_impl": len(rows),
             "records_total": len(rows), "records_token_exact_model_eq_impl": sum(1 for r in rows if r.get("agree")),
-            "records_undecodable": len(machinery_rows),
+            "records_undecodable": len(machinery_rows) - len(glue_rows),
+            "records_input_fields_rederived": sum(1 for r in rows if r.get("fields_ok") is True), "records_input_fields_mismatch": len(glue_rows),
             "applicable_by_family": fam, "applicable_by_kind_outcome": kinds,
             "failing_on_impl": len(failing), "failing_in_known_classes": len(failing) - len(unknown),
             "tie_broken_cases": len(tie_broken), "cross_case_evaluations": extra_evals,
